@@ -54,6 +54,7 @@ type Rec struct {
 	ErrCtx   bool   `json:"errctx"`
 	Err      string `json:"err"`
 	Note     string `json:"note"`
+	Login    string `json:"login"` // "sendinglate" only: "got" | "lost" - the login once the correlator is ready again
 }
 
 const (
@@ -229,7 +230,7 @@ func runS(dir string, sc Scenario, rec *Rec) {
 		w.WriteString("4242 Accepted password for bob from 10.0.0.1 po")
 		rec.Reached = waitFor(time.Second, func() bool { return drained(w) }) && len(done) == 0
 		time.Sleep(10 * time.Millisecond)
-	case "sending":
+	case "sending", "sendinglate":
 		// one accepted-login variant per channel-capacity value of the scenario (0..3)
 		w.WriteString([]string{
 			"4242 Accepted password for bob from 10.0.0.1 port 22 ssh2\n",
@@ -241,6 +242,26 @@ func runS(dir string, sc Scenario, rec *Rec) {
 		rec.Reached = waitFor(time.Second, func() bool { return enc.n.Load() == 1 }) && len(done) == 0
 		time.Sleep(30 * time.Millisecond)
 		rec.Reached = rec.Reached && enc.n.Load() == 1 && len(done) == 0
+		if sc.State == "sendinglate" {
+			// the correlator is merely busy: nobody cancels, and after the stall it receives again (C05: the login
+			// is forwarded unless the context is cancelled - however long the hand-off had to wait)
+			stall := rec.Stall
+			time.Sleep(time.Duration(stall) * time.Millisecond)
+			select {
+			case l := <-logins:
+				rec.Login = "got"
+				if l.PID != 4242 {
+					rec.Login = "lost"
+				}
+			case <-time.After(time.Second):
+				rec.Login = "lost"
+			}
+			waitFor(time.Second, func() bool { return enc.n.Load() == 2 }) // the next line is processed now
+			rec.Stall = 0
+			finish(rec, cancel, done, progress)
+			rec.Stall = stall
+			return
+		}
 	case "flood":
 		stop := make(chan struct{})
 		defer close(stop)
@@ -262,7 +283,6 @@ func runS(dir string, sc Scenario, rec *Rec) {
 }
 
 func runP(sc Scenario, rec *Rec) {
-	auditd.SetLogger(zap.NewNop().Sugar())
 	enc := &countEnc{}
 	audits := make(chan string, sc.Cap)
 	logins := make(chan common.RemoteUserLogin)
